@@ -44,6 +44,10 @@ CLAIMS = {
    text="Static decision of the gate's accept/reject behaviour by abstract interpretation: the typed HIR trees of lower_type, lower_out_type, lower_return_type, lower_callback_param, the struct/out-struct field loops (including TypeName::is_ffi_safe and the position-specific TyPosition::build_* impls) are interpreted over a finite abstract domain of type shapes (constructor trees of ast::TypeName x kind of the named type x spelling x lifetime class), exploring every path of the loop-free match/if trees, for 5 positions and 5 backend support profiles; the resulting verdict table (accept / reject-with-error / panic) is compared cell by cell with spec/gate.json, which was written from the statement and the book, not from the code. Also: no silent rejects, error context set before lowering, struct/out-struct sibling agreement (found the missing FFI-safety check on out-struct fields, repaired by a fix: commit), validation on the accept path covering Ok and Err payloads (decision table of with_contained_types), write only as last parameter, and the documented is_ffi_safe table.",
    note="The shape domain is finite and chosen by the spec (54 shapes); unknown sub-expressions are over-approximated by exploring both branches; lifetime-bound validation itself (validate_ty_in_method's arithmetic) is not decided here.",
    technique="abstract interpretation of the lowering functions over a finite shape domain + spec table comparison"),
+ "C10": dict(
+   text="Static decision of the encoding-consistency clauses: (R1) type-graph non-interference: nothing reachable from hir::TypeContext can carry the std/diplomat spelling, and backends take only the TypeContext; (R2) by abstract interpretation of the gate, both spellings of every Option/Result payload lower to the same HIR value in every position or one spelling is rejected, and Option returns get the Nullable / optional-pointer return kind in both spellings; (R3) ffi_safe_version/is_ffi_safe canonicalisation tables and the macro's use of them; (R4) path-sensitive MIR rule on diplomat-runtime: union arm ok is accessed only where is_ok is known true (err: false), constructors pair the arm with the flag, unit arms are zero-sized in rustc's layouts; (R5) {union; bool is_ok} record shape in the C/Dart/Kotlin mirrors, the per-method C record emits the union iff a payload line is emitted, C++ conversions do not cross arms; (R6) macro return rewriting, confirmed on every generated body of the repo's bridges.",
+   note="Value-level equality of behaviour for all payload values is not decided. JS receive-buffer arithmetic is reported as an observation only.",
+   technique="type-graph reachability + abstract interpretation + MIR path rule + mirrors"),
 }
 NOT_YET = "rule module not built yet in this round (see DESIGN.md section 4 for the planned static rules)"
 
